@@ -7,8 +7,10 @@ import Proofs.SchedTerm
 Model: `Model/Sched.lean`.  Deadlock is the property's own definition: no runnable thread while some thread is
 unfinished.  `no_deadlock` holds in every reachable state, i.e. for every graph (cyclic ones included), every worker
 count ≥ 1, every task outcome, every initial environment and every interleaving.  `clean_exit` describes the state in
-which every thread has finished.  Termination proper (every execution is finite) is `terminates_partial`: the number of
-steps each *worker* and the master can take between two publications is bounded — see the statement.
+which every thread has finished.  Termination proper (every execution is finite) is `always_terminates` /
+`bounded_executions`: a natural-number measure (`Proofs/SchedTerm.lean`, `mu`) strictly decreases at every step of every
+thread, so no execution from a reachable state has more than `mu` steps, and with `no_deadlock` every maximal execution
+ends in the state described by `clean_exit`.
 -/
 namespace Sched
 set_option linter.unusedVariables false
